@@ -23,6 +23,7 @@
 #include "ascon-masked-state.h"
 #include "ascon-masked-backend.h"
 #include "core/ascon-util.h"
+#include "core/ascon-verif.h"
 
 #if defined(ASCON_MASKED_X2_BACKEND_C64)
 
@@ -101,7 +102,10 @@ void ascon_x2_permute
     x2_a = ~x2_a;
 
     /* Perform all encryption rounds */
-    while (first_round < 12) {
+    while (first_round < 12)
+    ASCON_VERIF_LOOP(permute_x2_c64)
+    {
+        ASCON_VERIF_GHOST(permute_x2_c64_top)
         /* Add the inverted round constant to x2 */
         x2_a ^= RC[first_round++];
 
@@ -154,6 +158,7 @@ void ascon_x2_permute
 
         /* Rotate the randomness in t0 before the next round */
         t0_a = rightRotate13_64(t0_a);
+        ASCON_VERIF_GHOST(permute_x2_c64_bottom)
     }
 
     /* Return the final randomness to the caller to preserve it */
